@@ -118,8 +118,11 @@ func (root *Root) ResolveExecutable(
 		if ea = root.resolveField(root.obj, opVars, &field, root.schema, result, 1); len(ea) == 0 {
 			found := false
 			subMap, _ := result["data"].(map[string]interface{})
-			for _, val := range subMap {
-				if sub, _ := val.(*Subscription); sub != nil {
+			// In the order the fields are written, fragments included, the
+			// order of a map is not stable.
+			for _, key := range selKeys(op.Sels, nil) {
+				if sub, _ := subMap[key].(*Subscription); sub != nil {
+					delete(subMap, key)
 					sub.vars = opVars
 					root.subscribe(sub)
 					found = true
@@ -138,6 +141,25 @@ func (root *Root) ResolveExecutable(
 		err = Errors(ea)
 	}
 	return
+}
+
+// selKeys appends the response keys of the fields selected by sels to keys,
+// in document order with the fields of fragments in the place of the
+// fragment. Validation makes sure fragments do not spread themselves.
+func selKeys(sels []Selection, keys []string) []string {
+	for _, sel := range sels {
+		switch ts := sel.(type) {
+		case *Field:
+			keys = append(keys, ts.key())
+		case *Inline:
+			keys = selKeys(ts.Sels, keys)
+		case *FragRef:
+			if ts.Fragment != nil {
+				keys = selKeys(ts.Fragment.Sels, keys)
+			}
+		}
+	}
+	return keys
 }
 
 func (root *Root) resolve(
